@@ -617,8 +617,8 @@ class WingSegment:
                     if i == 0:
                         continue
 
-                    # Determine greatest control point index within this span
-                    num_less = np.sum((self.cp_span_locs < s).astype(int))
+                    # Determine greatest control point index within this span (a control point on a station belongs to the span ending there, as on the left side)
+                    num_less = np.sum((self.cp_span_locs <= s).astype(int))
                     self._airfoil_slices.append(slice(prev_slice_end, num_less))
                     prev_slice_end = num_less
             else:
